@@ -12,6 +12,9 @@ var checks = map[string]func(tier string) int{
 	"C02": props.CheckC02,
 	"C03": props.CheckC03,
 	"C04": props.CheckC04,
+	"C05": props.CheckC05,
+	"C09": props.CheckC09,
+	"C10": props.CheckC10,
 	"C13": props.CheckC13,
 }
 
